@@ -954,3 +954,34 @@ def closure_of_adaptor(facts, root, owner):
                 if cb is owner:
                     return pb, c
     return None, None
+
+
+# ---------------------------------------------------------------------------
+# who-may-write
+
+
+def field_mutators(facts, adt_suffix, field, skip=None):
+    """{body: [(kind, ln)]} — bodies (closures included) that assign to, or take `&mut` of, a place whose projection
+    passes through field `field` of an ADT whose path ends with `adt_suffix`. Struct literals are not writes."""
+    out = {}
+
+    def through(pl):
+        for p in pl.get('p', []):
+            if isinstance(p, dict) and p.get('n') == field and (p.get('adt') or '').endswith(adt_suffix):
+                return True
+        return False
+    for b in facts.all_bodies():
+        if skip and skip(b):
+            continue
+        for i in sorted(b.live_blocks()):
+            for s in b.blocks[i]['st']:
+                if s['k'] != 'assign':
+                    continue
+                if through(s['lhs']):
+                    out.setdefault(b, []).append(('assign', s['ln']))
+                rv = s['rv']
+                if rv['k'] == 'ref' and rv.get('mut') and through(rv['pl']):
+                    out.setdefault(b, []).append(('&mut', s['ln']))
+                if rv['k'] == 'rawptr' and 'mut' in str(rv.get('rk', '')).lower() and through(rv['pl']):
+                    out.setdefault(b, []).append(('&raw mut', s['ln']))
+    return out
